@@ -326,12 +326,15 @@ def tlc_stats(out):
     return int(m[-1][0]), int(m[-1][1])
 
 
-def validate_trace(trace_file, module="CatTraceImpl", timeout=900, heap="4g"):
+def validate_trace(trace_file, module="CatTrace", timeout=900, heap="4g", env_extra=None):
     """Run a trace specification over one ndjson trace; returns the result dict it wrote."""
     d = scratch_dir("tlctr-")
     try:
         resf = os.path.join(d, "result.json")
-        rc, out = tlc(module, workers=1, env={"CAT_TRACE": trace_file, "CAT_RESULT": resf}, timeout=timeout, heap=heap,
+        env = {"CAT_TRACE": trace_file, "CAT_RESULT": resf}
+        if env_extra:
+            env.update(env_extra)
+        rc, out = tlc(module, workers=1, env=env, timeout=timeout, heap=heap,
                       metadir=os.path.join(d, "md"))
         if rc != 0 or not os.path.exists(resf):
             raise MachineryError("TLC trace validation failed (rc=%s) for %s:\n%s" % (rc, trace_file, out[-3000:]))
